@@ -278,6 +278,9 @@ func (c *UDPConn) read(b []byte) (int, netip.AddrPort, error) {
 		c.k.filled = append(c.k.filled, b[:p.n:p.n])
 	}
 	raceEnable()
+	if p.err == nil {
+		raceWriteRange(b, p.n)
+	}
 	c.sync()
 	return p.n, p.from, err
 }
@@ -317,6 +320,7 @@ func (c *UDPConn) write(b []byte, to netip.AddrPort, hasTo bool) (int, error) {
 		return 0, syscall.EINVAL
 	}
 	c.sync()
+	raceReadRange(b)
 	raceDisable()
 	buf := append([]byte(nil), b...)
 	p := post(current(), &req{kind: rWrite, sock: c.k, buf: buf, peer: to, hasTo: hasTo})
@@ -450,6 +454,9 @@ func (c *TCPConn) Read(b []byte) (int, error) {
 		c.k.filled = append(c.k.filled, b[:p.n:p.n])
 	}
 	raceEnable()
+	if p.err == nil {
+		raceWriteRange(b, p.n)
+	}
 	c.sync()
 	return p.n, err
 }
@@ -459,6 +466,7 @@ func (c *TCPConn) Write(b []byte) (int, error) {
 		return 0, syscall.EINVAL
 	}
 	c.sync()
+	raceReadRange(b)
 	raceDisable()
 	buf := append([]byte(nil), b...)
 	p := post(current(), &req{kind: rWrite, sock: c.k, buf: buf})
